@@ -300,6 +300,19 @@ class EasCall(Stage):
         return self.digest_outputs([pe, c], len(idx)), _intact(keep, a)
 
 
+class EasCallThreads(EasCall):
+    """the same stage under dask's threaded scheduler: one shared kernel object evaluated re-entrantly"""
+    name = "EAS.__call__[threads-4]"
+
+    def call(self, idx):
+        import dask
+        a = [self.beta[idx].copy(), self.alt[idx].copy(), self.E[idx].copy(), self.lat[idx].copy(), self.lon[idx].copy()]
+        keep = [x.copy() for x in a]
+        with dask.config.set(scheduler="threads", num_workers=4):
+            pe, c = self.obj(*a, cloudf=lambda lat, long: np.float32(1.0))
+        return self.digest_outputs([pe, c], len(idx)), _intact(keep, a)
+
+
 class RadioCall(Stage):
     name = "EASRadio.__call__"
     cost = 4
@@ -326,5 +339,5 @@ class RadioCall(Stage):
 
 
 ALL = [GeomThrow, GeomCall, TooThrow, TooCall, SpectraStage, TauEnergy, TauExit, TausCall, TauInterleaved, CdfSampler,
-       Vec1dInterp, AltDec, EasCall, RadioCall]
+       Vec1dInterp, AltDec, EasCall, EasCallThreads, RadioCall]
 BY_NAME = {c.name: c for c in ALL}
